@@ -179,6 +179,12 @@ def proc_project(calls, with_prog, with_generic, nograph=None, entmeta=None):
         rel["calls"].add(("program~prog", "proc~p1"))
         if with_generic:
             rel["calls"].add(("program~prog", "interface~gen"))
+    if with_prog == "f77":
+        # besides: an old-style driver without any USE that works with its own internal procedures only
+        files["src/drv.f90"] = ("program drv\n!! drv\nimplicit none\ncall inner()\ncontains\nsubroutine inner()\n!! inner\ncall inner2(2)\nend subroutine inner\n"
+                                "subroutine inner2(a)\n!! inner2\ninteger :: a\nend subroutine inner2\nend program drv\n")
+        rel["calls"] |= {("program~drv", "proc~inner"), ("proc~inner", "proc~inner2")}
+        rel["nodes"] |= {"proc~inner", "proc~inner2"}
     return files, rel
 
 
@@ -191,6 +197,9 @@ def gen_proc_cases(tier):
         calls = tuple(c for k, c in enumerate(allc) if mask >> k & 1)
         yield ("procs", calls, True, False)
         yield ("procs", calls, True, True)
+    for mask in range(0, 512, 31 if tier == "quick" else 3):
+        calls = tuple(c for k, c in enumerate(allc) if mask >> k & 1)
+        yield ("procs", calls, "f77", False)
 
 
 def tbp_project(tname, decl, chain, caller):
